@@ -1916,6 +1916,13 @@ def build_file_from_blob(
         if oldstat is not None and oldstat.st_size == len(contents):
             with open(target_path, "rb") as f:
                 if f.read() == contents:
+                    # Same bytes: leave the file alone, but not a wrong
+                    # executable bit.
+                    if honor_filemode and cleanup_mode(oldstat.st_mode) != cleanup_mode(
+                        mode
+                    ):
+                        os.chmod(target_path, cleanup_mode(mode))
+                        return os.lstat(target_path)
                     return oldstat
 
         with open(target_path, "wb") as f:
